@@ -2699,7 +2699,10 @@ class SFTPClientHandler(SFTPHandler):
         if resptype not in (FXP_STATUS, return_type):
             raise SFTPBadMessage(f'Unexpected response type: {resptype}')
 
-        result = self._packet_handlers[resptype](self, resp)
+        try:
+            result = self._packet_handlers[resptype](self, resp)
+        except PacketDecodeError as exc:
+            raise SFTPBadMessage(str(exc)) from None
 
         if result is not None or return_type is None:
             return result
@@ -2824,6 +2827,11 @@ class SFTPClientHandler(SFTPHandler):
                 name = resp.get_string()
                 data = resp.get_string()
                 rcvd_extensions.append((name, data))
+
+            self.logger.debug1('Received version=%d%s', version,
+                               ', extensions:' if rcvd_extensions else '')
+
+            self._log_extensions(rcvd_extensions)
         except PacketDecodeError as exc:
             raise SFTPBadMessage(str(exc)) from None
         except SFTPError:
@@ -2832,11 +2840,6 @@ class SFTPClientHandler(SFTPHandler):
             raise SFTPConnectionLost(str(exc)) from None
         except (asyncio.IncompleteReadError, Error) as exc:
             raise SFTPConnectionLost(str(exc)) from None
-
-        self.logger.debug1('Received version=%d%s', version,
-                           ', extensions:' if rcvd_extensions else '')
-
-        self._log_extensions(rcvd_extensions)
 
         self._version = version
 
@@ -2879,8 +2882,11 @@ class SFTPClientHandler(SFTPHandler):
             packet = cast(SSHPacket, await self._make_request(
                 b'limits@openssh.com'))
 
-            limits = SFTPLimits.decode(packet)
-            packet.check_end()
+            try:
+                limits = SFTPLimits.decode(packet)
+                packet.check_end()
+            except PacketDecodeError as exc:
+                raise SFTPBadMessage(str(exc)) from None
 
             limits.log(self.logger, 'Received')
 
@@ -3044,8 +3050,11 @@ class SFTPClientHandler(SFTPHandler):
             packet = cast(SSHPacket, await self._make_request(
                 b'statvfs@openssh.com', String(path)))
 
-            vfsattrs = SFTPVFSAttrs.decode(packet, self._version)
-            packet.check_end()
+            try:
+                vfsattrs = SFTPVFSAttrs.decode(packet, self._version)
+                packet.check_end()
+            except PacketDecodeError as exc:
+                raise SFTPBadMessage(str(exc)) from None
 
             self.logger.debug1('Received %s', vfsattrs)
 
@@ -3062,8 +3071,11 @@ class SFTPClientHandler(SFTPHandler):
             packet = cast(SSHPacket, await self._make_request(
                 b'fstatvfs@openssh.com', String(handle)))
 
-            vfsattrs = SFTPVFSAttrs.decode(packet, self._version)
-            packet.check_end()
+            try:
+                vfsattrs = SFTPVFSAttrs.decode(packet, self._version)
+                packet.check_end()
+            except PacketDecodeError as exc:
+                raise SFTPBadMessage(str(exc)) from None
 
             self.logger.debug1('Received %s', vfsattrs)
 
@@ -3289,8 +3301,11 @@ class SFTPClientHandler(SFTPHandler):
                 b'ranges@asyncssh.com', String(handle),
                 UInt64(offset), UInt64(length)))
 
-            result = SFTPRanges.decode(packet)
-            packet.check_end()
+            try:
+                result = SFTPRanges.decode(packet)
+                packet.check_end()
+            except PacketDecodeError as exc:
+                raise SFTPBadMessage(str(exc)) from None
 
             result.log(self.logger, 'Received')
 
@@ -5740,6 +5755,8 @@ class SFTPClient:
 
         if len(names) > 1:
             raise SFTPBadMessage('Too many names returned')
+        elif not names:
+            raise SFTPBadMessage('No names returned')
 
         if check != FXRP_NO_CHECK:
             if self.version < 6:
@@ -5820,6 +5837,8 @@ class SFTPClient:
 
         if len(names) > 1:
             raise SFTPBadMessage('Too many names returned')
+        elif not names:
+            raise SFTPBadMessage('No names returned')
 
         return self.decode(cast(bytes, names[0].filename),
                            isinstance(path, (str, PurePath)))
@@ -6926,17 +6945,17 @@ class SFTPServerHandler(SFTPHandler):
                     rcvd_extensions.append((name, data))
             else:
                 packet.check_end()
+
+            self.logger.debug1('Received init, version=%d%s', version,
+                               ', extensions:' if rcvd_extensions else '')
+
+            self._log_extensions(rcvd_extensions)
         except PacketDecodeError as exc:
             await self._cleanup(SFTPBadMessage(str(exc)))
             return
         except Error as exc:
             await self._cleanup(exc)
             return
-
-        self.logger.debug1('Received init, version=%d%s', version,
-                           ', extensions:' if rcvd_extensions else '')
-
-        self._log_extensions(rcvd_extensions)
 
         self._version = min(version, self._version)
 
